@@ -4,3 +4,4 @@ import Mitx.Props.C10
 import Mitx.Props.C17
 import Mitx.Props.C08
 import Mitx.Props.C07
+import Mitx.Props.C05
